@@ -227,6 +227,32 @@ def h_snippet_tabs(case: int) -> bool:
         return _check_snippet(r.buffer, lines, span, primary, "lab", 0) == len(r.buffer)
 
 
+_REREG = [(shorter, primary) for shorter in (False, True) for primary in (False, True)]
+
+
+def h_reregistered(case: int) -> bool:
+    """
+    pre: 0 <= case < len(_REREG)
+    post: _
+    """
+    # a file name registered a second time with different text (an edited file, a re-used pseudo file name): snippets show the text of
+    # the registration in force, also when the old text was shorter than the line the span sits on
+    shorter, primary = _REREG[realize(case)]
+    with NoTracing():
+        lines = ["ctx = 0", "other = 1", "    XXXb", "after = 1"]
+        old = ["old0", "old1"] if shorter else ["old0", "old1", "    OLDb", "old3"]
+        sm = SourceMap()
+        sm.add_file("f", "\n".join(old))
+        sm.add_file("f", "\n".join(lines))
+        span = Span(Loc("f", 3, 4), Loc("f", 3, 7))
+        r = DiagnosticsRenderer(sm)
+        try:
+            r.render_snippet(span, "lab", 3, primary, prefix_lines=2 if primary else 0)
+        except Exception as e:  # noqa: BLE001
+            return _fail(f"render_snippet raised {type(e).__name__}: {e}", r.buffer)
+        return _check_snippet(r.buffer, lines, span, primary, "lab", 0) == len(r.buffer)
+
+
 def h_snippet_label(lab: int, deep: bool, primary: bool, ctx: bool) -> bool:
     """
     pre: 0 <= lab < 5
